@@ -29,6 +29,8 @@ type CrashScenario struct {
 	// OpenCfg, if set, is the configuration used to reopen crash images
 	// (C09: different bit size).
 	Recover func(sc *CrashScenario, img vos.Image, info crashInfo, c *Collector) *Violation
+	// SkipEmpty: do not explore the crash points of the preamble's last op.
+	SkipEmpty bool
 	// only restricts exploration to one crash image (replay).
 	only *replaySpec
 }
@@ -448,7 +450,7 @@ func (sc *CrashScenario) enumerate(c *Collector, unit *int, seen map[[40]byte]st
 			*unit++
 		}
 		failed := false
-		if mine {
+		if mine && !(sc.SkipEmpty && depth == 0) {
 			failed = sc.crashHistory(hist, c, seen)
 			c.count("histories", 1)
 		}
